@@ -3,6 +3,7 @@
 
 mod m_seq;
 mod m_signals;
+mod m_timing;
 mod m_token;
 mod m_transient;
 
@@ -15,6 +16,7 @@ fn main() {
     let args: Vec<String> = std::env::args().collect();
     match args.get(1).map(|s| s.as_str()) {
         Some("token") => m_token::run(),
+        Some("timing") => m_timing::run(),
         Some("signals") => m_signals::run(),
         Some("transient") => m_transient::run(),
         Some("seq") => m_seq::run(args.get(2).expect("scenario file")),
